@@ -87,6 +87,10 @@ func goxScenarios() []goxScenario {
 		{Name: "order-by", Files: files, SQL: "SELECT a, g FROM t ORDER BY g, a DESC", CPU: 3},
 		{Name: "having-aggregate", Files: files, SQL: "SELECT g, LISTAGG(a, ',') FROM t GROUP BY g HAVING COUNT(*) > 0 ORDER BY g", CPU: 3},
 		{Name: "analytic", Files: files, SQL: "SELECT a, RANK() OVER (PARTITION BY g ORDER BY a), COUNT(a) OVER (PARTITION BY g), SUM(b) OVER (ORDER BY a) FROM t", CPU: 3},
+		{Name: "user-aggregate-with-row-argument-over-partitions", Files: files,
+			SQL: "DECLARE wsum AGGREGATE (cur, @w, @c) AS BEGIN VAR @s := @c; VAR @v; WHILE @v IN cur DO @s := @s + @v * @w; END WHILE; RETURN @s; END; SELECT a, wsum(b, a, a * 100) OVER (PARTITION BY g) FROM t; SELECT g, wsum(b, 2, 0) FROM t GROUP BY g;", CPU: 3},
+		{Name: "user-function-in-where-and-select", Files: files,
+			SQL: "DECLARE dbl FUNCTION (@x) AS BEGIN VAR @y := @x * 2; RETURN @y; END; SELECT a, dbl(b) FROM t WHERE dbl(a) > 4;", CPU: 3},
 		{Name: "union", Files: files, SQL: "SELECT g FROM t UNION SELECT g FROM u", CPU: 3},
 		{Name: "except-intersect", Files: files, SQL: "SELECT g FROM t EXCEPT SELECT g FROM u; SELECT g FROM t INTERSECT SELECT g FROM u;", CPU: 3},
 		{Name: "subquery-in", Files: files, SQL: "SELECT a FROM t WHERE g IN (SELECT g FROM u)", CPU: 3},
